@@ -1,27 +1,45 @@
-//! One-off survey: does the unchanged crate accept any string that lacks the permissive numeral shape?
+//! One-off survey of the unchanged tree: (1) does the crate accept any string that lacks the permissive numeral
+//! shape? (2) when it accepts a shaped string, is the value the reference reading?
 use simdec::prng::Rng;
-use simdec::refdec::has_numeral_shape;
+use simdec::refdec::{has_numeral_shape, parse_numeral_lenient};
 use std::str::FromStr;
 fn main() {
     let alphabet: Vec<char> = "0123456789017+-..eE__x \u{0}٣".chars().collect();
-    let mut rng = Rng::from_seed(7);
-    let mut bad = 0;
+    let mut rng = Rng::from_seed(std::env::args().nth(1).and_then(|s| s.parse().ok()).unwrap_or(7));
+    let (mut shapeless, mut wrong, mut accepted, mut shaped_rejected) = (0u64, 0u64, 0u64, 0u64);
     let mut seen = std::collections::BTreeSet::new();
-    let mut accepted = 0u64;
-    for n in 0..20_000_000u64 {
-        let len = 1 + rng.below(9) as usize;
+    for _ in 0..30_000_000u64 {
+        let len = 1 + rng.below(10) as usize;
         let s: String = (0..len).map(|_| *rng.pick(&alphabet)).collect();
-        if let Ok(d) = bigdecimal::BigDecimal::from_str(&s) {
-            accepted += 1;
-            if !has_numeral_shape(&s) {
-                bad += 1;
-                let cls: String = s.chars().map(|c| if c.is_ascii_digit() { '9' } else { c }).collect::<String>().replace("99", "9").replace("99", "9").replace("99", "9");
-                if seen.insert(cls) && seen.len() < 60 {
-                    println!("accepted without numeral shape: {:?} -> {:?}", s, d.as_bigint_and_exponent());
+        let cls = || -> String { s.chars().map(|c| if c.is_ascii_digit() { '9' } else { c }).collect::<String>().replace("99", "9").replace("99", "9").replace("99", "9") };
+        match bigdecimal::BigDecimal::from_str(&s) {
+            Ok(d) => {
+                accepted += 1;
+                if !has_numeral_shape(&s) {
+                    shapeless += 1;
+                    if seen.insert(format!("A{}", cls())) && seen.len() < 40 {
+                        println!("accepted without numeral shape: {:?} -> {:?}", s, d.as_bigint_and_exponent());
+                    }
+                } else {
+                    let r = parse_numeral_lenient(&s).unwrap();
+                    let (i, sc) = d.as_bigint_and_exponent();
+                    if i != r.int || sc as i128 != r.scale {
+                        wrong += 1;
+                        if seen.insert(format!("W{}", cls())) && seen.len() < 40 {
+                            println!("accepted with a different reading: {:?} -> {:?}, reference ({}, {})", s, (i, sc), r.int, r.scale);
+                        }
+                    }
+                }
+            }
+            Err(_) => {
+                if has_numeral_shape(&s) {
+                    shaped_rejected += 1;
+                    if seen.insert(format!("R{}", cls())) && seen.len() < 40 {
+                        println!("shaped but rejected (allowed): {:?}", s);
+                    }
                 }
             }
         }
-        let _ = n;
     }
-    println!("accepted {} strings, {} without the permissive shape", accepted, bad);
+    println!("accepted {}, without shape {}, with a different reading {}, shaped-but-rejected {}", accepted, shapeless, wrong, shaped_rejected);
 }
